@@ -67,6 +67,37 @@ def token_callbacks(ctx: Ctx) -> None:
                       replay_code=f"AhbExpressionTransformer().{b['token']}(Token('{b['token']}', '{b['spelling']}'))")
 
 
+def ahb_rule_table(ctx: Ctx) -> None:
+    """ground obligation on the rule table Lark built from the REAL AHB grammar string: the documented shape
+    `(modal_mark condition)+ [indicator] | prefix_operator condition | indicator`, every part under the alias
+    `single_requirement_indicator_expression` (a sufficient-condition obligation: undecided when it fails)"""
+    import ahbicht.content_evaluation  # noqa: F401
+    from ahbicht.expressions import ahb_expression_parser as ahbp
+    t0 = time.time()
+    p = getattr(ahbp, "_parser", None)
+    if p is None or not hasattr(p, "rules"):
+        ctx.obligation("grammar/ahb-rule-table", "undecided", backend="ground check on the live Lark rule table",
+                       detail="the module-level Lark parser `_parser` was not found in this tree")
+        return
+    plus = [r.origin.name for r in p.rules if r.origin.name.startswith("__")]
+    ren = {n: "PLUS" for n in set(plus)}
+    got = sorted((ren.get(r.origin.name, r.origin.name), tuple(ren.get(s.name, s.name) for s in r.expansion), r.alias)
+                 for r in p.rules)
+    want = sorted([
+        ("ahb_expression", ("PLUS",), None), ("ahb_expression", ("prefix_operator_expression",), None),
+        ("ahb_expression", ("requirement_indicator",), None), ("ahb_expression", ("PLUS", "requirement_indicator"), None),
+        ("modal_mark_expression", ("MODAL_MARK", "CONDITION_EXPRESSION"), "single_requirement_indicator_expression"),
+        ("prefix_operator_expression", ("PREFIX_OPERATOR", "CONDITION_EXPRESSION"), "single_requirement_indicator_expression"),
+        ("requirement_indicator", ("PREFIX_OPERATOR",), None), ("requirement_indicator", ("MODAL_MARK",), None),
+        ("PLUS", ("modal_mark_expression",), None), ("PLUS", ("PLUS", "modal_mark_expression"), None)],
+        key=lambda x: (x[0], x[1], x[2] or ""))
+    got = sorted(got, key=lambda x: (x[0], x[1], x[2] or ""))
+    ok = got == want
+    ctx.obligation("grammar/ahb-rule-table-is-the-documented-shape", "discharged" if ok else "undecided",
+                   backend="ground check on the live Lark rule table", seconds=time.time() - t0,
+                   detail=None if ok else f"rules: {got}")
+
+
 def run(ctx: Ctx) -> None:
     ctx.explanation = (
         "PROVED (z3): _ahb_expression_async returns the first part whose requirement outcome is True, else the last "
@@ -84,4 +115,5 @@ def run(ctx: Ctx) -> None:
     # token languages of the grammar, decided over all of Unicode (sufficient-condition obligations, see checks/tokenlang.py)
     from checks import tokenlang
     tokenlang.obligations(ctx, grammars=("ahb",))
+    ahb_rule_table(ctx)
     run_bounded(ctx, "C09")
